@@ -10,7 +10,8 @@ and a final `S` summary line plus `T` tag-histogram lines.
 open Grol
 
 def suites : List (String × (String → String → CaseResult)) :=
-  [ ("trie", TrieSuite.runCase) ]
+  [ ("trie", TrieSuite.runCase),
+    ("parse", ParseSuite.runCase .c08), ("parse15", ParseSuite.runCase .c15) ]
 
 structure DAcc where
   cases : Nat := 0
